@@ -363,6 +363,14 @@ def run_semantic(res, sources, opts=None, count=30, extra_case=None, label="prog
             res.violation({"reason": "printed blueprint does not decode", "detail": v["blueprint_error"], "source": c["source"], "options": c.get("options")})
             info["status"] = "violation"
             continue
+        if "certificate_error" in v:
+            # the per-program theorems are about Blueprint.toCircuit; without the certificate its producer lists are
+            # not shown to be the wired ones (Facto.mem_prodOf_iff), so nothing is shown for this program
+            res.violation({"reason": "network-partition certificate failed (premise of Facto.components_exact / mem_prodOf_iff)",
+                           "detail": v["certificate_error"], "source": c["source"], "options": c.get("options")}, failing_input=False)
+            info["status"] = "violation"
+            continue
+        stats["partition_certified"] += 1
         if v.get("unsupported"):
             stats["entity_unsupported"] += 1
         mt = v.get("match") or {}
